@@ -474,6 +474,8 @@ class Cfg_{uid}(Interface):
   def construct(s):
     s.tag = InPort(Bits8)
     s.hdr = InPort(Hdr_{uid})
+    s.rst = InPort(Bits1)
+    s.ck = InPort(Bits1)
 
 class IfcA_{uid}(Component):
   def construct(s, k=3):
@@ -550,6 +552,11 @@ class IfcTop_{uid}(Component):
         s.st[i].cfg.tag[0:3] //= v & 7
       elif what == "field":
         s.st[i].cfg.hdr.a //= v & 15
+      elif what == "rst":
+        # an ordinary port of the list element tied to the PARENT's own reset / clk
+        s.st[i].cfg.rst //= s.reset
+      elif what == "ck":
+        s.st[i].cfg.ck //= s.clk
       else:
         s.st[i].cfg.hdr.b //= v & 15
 
@@ -642,6 +649,8 @@ def gen_template_case(R, c):
         for what in grp:
           if c.random() < 0.8:
             ties.append([i, what, c.randrange(1, 256)])
+      if c.random() < 0.4:
+        ties.append([i, c.choice(["rst", "ck"]), 0])
   return {"family": "template", "kind": kind, "start": start, "ops": ops, "uid": "k%x" % (R.seed & 0xffffff),
           "hash_seed": R.sub_seed("hash"), "params": params, "ties": ties}
 
